@@ -255,6 +255,10 @@ def trace_origin(name: str, source: str, *, __all__: bool = False) -> _TraceResu
             if name not in all_filter:
                 return None
 
+        elif name.startswith("_"):
+            # Without __all__, a starred import leaves out the names that start with an underscore
+            return None
+
     for node in sorted(nodes, key=lambda n: (n.lineno, n.col_offset), reverse=True):
         if isinstance(node, (ast.Import, ast.ImportFrom)):
             for alias in node.names:
